@@ -368,6 +368,12 @@ func c10Pair(c *harness.Ctx, mode string) {
 			c.Violate("C10/handshake-deadline-not-enforced", "%s with %s: handshake call took %v (bound %v)", nm, what, d, sd.tg.hsBound)
 			return
 		}
+		// armed when the handshake starts: the first deadline call carries a
+		// real time and precedes the first read of the connection
+		if dl := sd.under.Deadlines; len(dl) == 0 || dl[0].T.IsZero() || dl[0].ReadsBefore != 0 {
+			c.Violate("C10/handshake-deadline-not-armed-at-start", "%s: %d deadline calls on the underlying connection; the first one must arm a deadline before the first Read (got %+v)", nm, len(dl), dl)
+			return
+		}
 		if sd.hs.err == nil && !sd.dlCleared {
 			c.Violate("C10/handshake-deadline-left-armed", "%s: handshake succeeded but a deadline is still armed on the underlying connection (it would kill the established session later)", nm)
 			return
@@ -667,7 +673,16 @@ func c10Meek(c *harness.Ctx) {
 func c10Flood(c *harness.Ctx) {
 	t := c.T
 	targets := c10Targets(c)
-	which := t.Draw("which", 4)
+	which := t.Draw("which", 9)
+	hsTarget := -1
+	if which >= 4 {
+		// handshake-phase flood at every transport and role
+		hsTarget = which - 4 + 0
+		if hsTarget > 5 {
+			hsTarget = 5
+		}
+		which = 0
+	}
 	link := c.Net.NewLink("peer", "tgt")
 	link.AB.Policy, link.BA.Policy = simnet.ChunkBurst, simnet.ChunkBurst
 	const floodBytes = 12 << 20
@@ -684,6 +699,9 @@ func c10Flood(c *harness.Ctx) {
 	case 0, 1:
 		// handshake-phase garbage at a server (obfs4: silently discarded until the close time)
 		tg := targets[[]int{1, 3}[which]]
+		if hsTarget >= 0 {
+			tg = targets[hsTarget]
+		}
 		name = tg.name + " " + tg.role + " handshake-phase garbage"
 		c.S.Go("tgt/handshake", func() {
 			conn, err := tg.open(link.B)
